@@ -315,6 +315,7 @@ def c15_worker(res: Result, i: int, n: int) -> None:
         res.count("classes")
     if i == 0:
         _record_classes(res, ops, distinct)
+        cross_process_pickles(res)
     res.coverage["operations_by_kind"] = ops
     res.coverage["distinct_nontrivial_instances"] = len(distinct)
 
@@ -372,6 +373,83 @@ def _record_classes(res: Result, ops: dict, distinct: set) -> None:
             check_instance(res, cls, inst, lambda kw=kw, cls=cls: cls(**kw), perturb, lambda x: repr(x), ops, "record class")
             res.count("record_class_instances")
             distinct.add(hashlib.sha256(repr(inst).encode()).digest()[:12])
+
+
+def xproc_build(n_classes: int = 60) -> list:
+    """Pairs (x, twin) of equal, independently built instances: the four record classes and a spread of entity classes."""
+    from kio.records.schema import NewRecordBatch, Record, RecordBatch, RecordHeader
+
+    E = datetime.datetime(1970, 1, 1, tzinfo=datetime.timezone.utc)  # noqa: N806
+    out = []
+
+    def records():  # noqa: ANN202
+        h = RecordHeader(key=b"hk", value=b"hv")
+        r = Record(attributes=0, timestamp=E + datetime.timedelta(milliseconds=1503229838908), offset=7, key=b"key", value=b"value", headers=(h,))
+        b = RecordBatch(base_offset=7, batch_length=80, partition_leader_epoch=-1, crc=12345, attributes=0, last_offset_delta=0, base_timestamp=1503229838908,
+                        max_timestamp=1503229838908, producer_id=-1, producer_epoch=-1, base_sequence=-1, records=(r,))
+        nb = NewRecordBatch(producer_id=1, producer_epoch=2, partition_leader_epoch=3, base_sequence=4, records=(r,), attributes=0)
+        return [h, r, b, nb]
+
+    out += list(zip(records(), records()))
+    classes = walk.classes()
+    for cls in classes[:: max(1, len(classes) // n_classes)]:
+        spec = describe.spec_from_class(cls)
+        tree = gen.Gen(common.rng_for("C15", "xproc", walk.class_path(cls)), "canonical", big_prob=0.0).struct(spec)
+        out.append((describe.tree_to_instance(spec, tree), describe.tree_to_instance(spec, tree)))
+    return out
+
+
+_XPROC = """
+import json, pickle, sys
+sys.path.insert(0, {verif!r})
+from kv.checks import values
+mode, path = sys.argv[1], sys.argv[2]
+if mode == "produce":
+    pairs = values.xproc_build()
+    used = [hash(x) for x, _ in pairs]          # x has been hashed (put in a set / dict) before it is pickled; its twin has not
+    open(path, "wb").write(pickle.dumps(pairs, protocol={proto}))
+    print(json.dumps({{"n": len(pairs)}}))
+else:
+    pairs = pickle.loads(open(path, "rb").read())
+    bad = []
+    for x, twin in pairs:
+        name = type(x).__module__ + ":" + type(x).__qualname__
+        if not (x == twin):
+            bad.append([name, "unequal"])
+        elif hash(x) != hash(twin) or x not in {{twin}}:
+            bad.append([name, "hash"])
+    print(json.dumps({{"n": len(pairs), "bad": bad}}))
+"""
+
+
+def cross_process_pickles(res: Result) -> None:
+    """Pickles travel between processes: an instance that was hashed in one interpreter and unpickled in another (other hash seed) must be
+    equal to, and hash like, an equal instance of that interpreter."""
+    import json
+    import os
+    import subprocess
+    import sys
+    import tempfile
+
+    for proto in (2, pickle.HIGHEST_PROTOCOL):
+        with tempfile.TemporaryDirectory(prefix="kv-c15-") as d:
+            path = os.path.join(d, "pairs.pickle")
+            code = _XPROC.format(verif=str(common.VERIF), proto=proto)
+            outs = []
+            for mode, seed in (("produce", "101"), ("consume", "202")):
+                try:
+                    p = subprocess.run([sys.executable, "-c", code, mode, path], capture_output=True, text=True, timeout=300,
+                                       env=dict(os.environ, PYTHONHASHSEED=seed), cwd=str(common.VERIF))
+                    outs.append(json.loads(p.stdout.strip().splitlines()[-1]))
+                except Exception as exc:  # noqa: BLE001
+                    res.inconclusive_because(f"cross-process pickle check ({mode}) did not report: {exc!r}")
+                    return
+            res.count("cross_process_pickled_instances", outs[1]["n"])
+            for name, what in outs[1]["bad"]:
+                res.violation(f"cross-process-pickle:{what}:{name.split(':')[-1]}",
+                              f"{name}: an instance hashed and pickled (protocol {proto}) in one interpreter, unpickled in another (different hash seed), "
+                              + ("is not equal to an equal instance built there" if what == "unequal" else "hashes differently from an equal instance built there"),
+                              {"class": name, "protocol": proto})
 
 
 def run(prop: str, tier_: str) -> int:
